@@ -246,11 +246,31 @@ impl Scenario for Stream {
         // keep the product bounded so that a run stays in the millisecond range
         let mut n = if big { n } else { n.min(400_000 / spec.m.max(1)).max(1) };
         let mut spec = spec;
+        if spec.kind == UKind::SmhF32 && spec.m > 4096 {
+            // f32 SuperMinHash: for j >= 2^12 the sum j + r leaves the f32 grid often enough that the
+            // histogram of integer parts (and with it the early exit) degrades and every item costs m steps.
+            // That is a performance matter, not this property: keep such runs short instead of tripping the watchdog.
+            n = n.min(50_000_000 / spec.m).max(1);
+        }
+        if big && spec.kind.is_set() {
+            // SetSketch costs up to m steps per item while its lower bound is still 0
+            n = n.min(100_000_000 / spec.m.max(1)).max(1);
+        }
+        if big && matches!(spec.kind, UKind::OptF64 | UKind::OptF32) {
+            // optimal densification costs m^2 / populated steps
+            n = n.max(spec.m * spec.m / 100_000_000);
+        }
         if spec.kind.is_dens() && rng.chance(0.04) {
             // sketch thousands of times larger than the stream: nearly every bin is filled by densification
             n = rng.urange(1, 6);
             let cap = ((2.0e7 * n as f64).sqrt() as u64).min(12_000);
             spec.m = rng.log_range(1500, cap.max(1501)) as usize;
+        }
+        if std::env::var("VERIF_STREAM_REGIME").as_deref() == Ok("smhf32-large") {
+            // exploration knob (not used by the registered checks): f32 SuperMinHash where j + r leaves the f32 grid
+            spec.kind = UKind::SmhF32;
+            spec.m = rng.range(16_500, 30_000) as usize;
+            n = rng.range(300, 3000) as usize;
         }
         let items = gen_items(rng, n, spec.elem);
         let mut events;
